@@ -7,6 +7,7 @@ ANY schedule, with any evaluations in flight, followed by ANY later events (furt
 the target, any completion order).  Float laws used: none.
 -/
 import CambrianModel.Lemmas.CtlStep
+import CambrianModel.Model.Process
 namespace Cambrian.Props
 open Cambrian Cambrian.Ctl
 
@@ -63,5 +64,25 @@ example :
     (run c 1 (some 0) 0 (fun _ => ⟨false, 9⟩) evs).2 =
       [.start 0 0 0, .start 1 1 9, .broadcastAbort, .item 1 1 (some 3), .ret (.err 7) []] := by
   decide
+
+/-! ### what counts as a failing child (`process.rs::get_child_result`) -/
+
+/-- A child that does not exit with status 0 - a non-zero exit code, or a death by signal even after it has printed a
+    perfectly valid result - is a failed evaluation whatever it wrote (the exit status is judged by
+    `ExitStatus::success()` and before the output is looked at: source fact `childStatusBySuccessFirst`). -/
+theorem C06_child_not_ok (st : Proc.ExitStatus) (out : Proc.ChildOut) (h : st ≠ .exited 0) :
+    Proc.classifyChild { exitOk := Proc.exitOkOf Generated.childStatusBySuccessFirst st, out := out } = .failed .procFailed := by
+  have hg : Generated.childStatusBySuccessFirst = true := by decide
+  rw [hg]
+  cases st with
+  | exited c =>
+    cases c with
+    | zero => exact absurd rfl h
+    | succ n => simp [Proc.classifyChild, Proc.exitOkOf, Proc.ExitStatus.success]
+  | signaled sg => simp [Proc.classifyChild, Proc.exitOkOf, Proc.ExitStatus.success]
+
+/-- negative witness: judged by "exit code, 0 when there is none", a child killed by SIGSEGV after answering is accepted -/
+example : Proc.classifyChild { exitOk := Proc.exitOkOf false (.signaled 11), out := .value (.fin 0) } = .accepted (.fin 0) := by decide
+example : Proc.classifyChild { exitOk := Proc.exitOkOf true (.exited 0), out := .value (.fin 0) } = .accepted (.fin 0) := by decide
 
 end Cambrian.Props
